@@ -72,6 +72,8 @@ type Sim struct {
 	names    map[unsafe.Pointer]string
 	children map[string]int
 	live     map[string]int
+	ExitAt   map[string]time.Duration // when a named goroutine finished (simulated time)
+	StartAt  map[string]time.Duration
 	anon     int
 
 	hash    uint64
@@ -100,6 +102,8 @@ func New(seed uint64, tape *Tape) *Sim {
 		names:    map[unsafe.Pointer]string{},
 		children: map[string]int{},
 		live:     map[string]int{},
+		ExitAt:   map[string]time.Duration{},
+		StartAt:  map[string]time.Duration{},
 		Stats:    map[string]int{},
 		MaxSteps: 20000,
 		MaxTime:  10 * time.Minute,
@@ -259,12 +263,14 @@ func (s *Sim) run(name string, f func()) {
 	raceOff()
 	s.mu.Lock()
 	s.names[id] = name
+	s.StartAt[name] = time.Since(s.Start)
 	s.mu.Unlock()
 	raceOn()
 	defer func() {
 		raceOff()
 		s.mu.Lock()
 		delete(s.names, id)
+		s.ExitAt[name] = time.Since(s.Start)
 		s.live[name]--
 		if s.live[name] == 0 {
 			delete(s.live, name)
@@ -546,9 +552,7 @@ func (s *Sim) loop(done func() bool) {
 				wait = s.events.peek().at.Sub(now)
 			}
 			s.mu.Unlock()
-			if done() {
-				// nothing runnable now; are there future events? let them happen only
-				// if the world is not done.
+			if !hasEv && done() {
 				return
 			}
 			remaining := s.MaxTime - time.Since(s.Start)
